@@ -96,7 +96,9 @@ class FieldCollection(FieldBase):
         if copy_fields:
             self._fields = [field.copy() for field in fields]
         else:
-            self._fields = fields  # type: ignore
+            # create a new list, so the collection works for any sequence (e.g., tuples)
+            # and is not affected when the sequence is modified later
+            self._fields = list(fields)
 
         # extract data from individual fields
         fields_data: list[NumericArray] = []
